@@ -207,8 +207,11 @@ MANIFEST_ENTRY = {
             "{2,3}: compose_flows(u, v) of the displacement fields of affine maps A (sample positions inside the hull) and B is the "
             "displacement field of B o A at every lattice point; the zero field is a left and right identity for arbitrary fields; the "
             "flag given to compose_flows reaches both Grid.coords and F.grid_sample (generated) so the traced function is the model of "
-            "that convention; the Lie bracket (generated formula over Jacobians) is bilinear, antisymmetric and [v,v] = 0 for every linear "
-            "derivative operator on any point set; the BCH coefficients / nesting generated from compose_svfs for bch_terms 0..5 are the "
+            "that convention; the Lie bracket (generated formula over Jacobians) is bilinear for every pair of linear derivative operators, and "
+            "antisymmetric with [v,v] = 0 when both Jacobians use the same operator -- which the source does: the options (mode, sigma, "
+            "spacing, stride) lie_bracket forwards to flow_derivatives for its two Jacobians are generated by recording those calls and "
+            "proved identical and complete (C13_lie_bracket_code_2d/3d on the coded bracket, any family of linear operators indexed by "
+            "the forwarded options); the BCH coefficients / nesting generated from compose_svfs for bch_terms 0..5 are the "
             "documented table and, in any vector space with a bracket linear in its second argument, [v,u] = 0 implies compose_svfs = v + u "
             "for every truncation order. Tie: Gen/FlowAlg.v (compose_flows skeleton and flags, BCH table with lie_bracket opaque, logv "
             "flags) and Gen/FlowDeriv.v (gen_lie2/3) regenerated by symbolic tracing; executable model run in Coq against compose_flows, "
